@@ -1708,14 +1708,20 @@ func resolveIndex(v, index reflect.Value, indexAsStr string) (reflect.Value, err
 		}
 
 		if id, ok := cache[key]; ok {
-			field := v.FieldByIndex(id)
+			field, err := fieldByIndex(v, id)
+			if err != nil {
+				return reflect.Value{}, fmt.Errorf("can't evaluate field %s in struct type %s: %v", indexAsStr, v.Type(), err)
+			}
 			return indirectEface(field), nil
 		}
 
 		// Slow path: use reflect directly
 		tField, ok := typ.FieldByName(key)
 		if ok {
-			field := v.FieldByIndex(tField.Index)
+			field, err := fieldByIndex(v, tField.Index)
+			if err != nil {
+				return reflect.Value{}, fmt.Errorf("can't evaluate field %s in struct type %s: %v", indexAsStr, v.Type(), err)
+			}
 			if tField.PkgPath != "" { // field is unexported
 				return reflect.Value{}, fmt.Errorf("%s is an unexported field of struct type %s", indexAsStr, v.Type())
 			}
@@ -1744,6 +1750,21 @@ func resolveIndex(v, index reflect.Value, indexAsStr string) (reflect.Value, err
 		}
 	}
 	return reflect.Value{}, fmt.Errorf("can't evaluate index %s (%s) in type %s", index, indexAsStr, getTypeString(v))
+}
+
+// fieldByIndex is reflect.Value.FieldByIndex, except that it returns an error
+// instead of panicking when the path leads through a nil embedded pointer.
+func fieldByIndex(v reflect.Value, index []int) (reflect.Value, error) {
+	for i, x := range index {
+		if i > 0 && v.Kind() == reflect.Ptr && v.Type().Elem().Kind() == reflect.Struct {
+			if v.IsNil() {
+				return reflect.Value{}, errors.New("nil pointer to embedded struct " + v.Type().Elem().String())
+			}
+			v = v.Elem()
+		}
+		v = v.Field(x)
+	}
+	return v, nil
 }
 
 // from Go's text/template's funcs.go:
